@@ -64,6 +64,41 @@ def _is_raiser(eng, callee):
     return not any(rk in (True, False) for rk in sm.groups)
 
 
+class Exc_note:
+    """an exception record with an explanation appended to its `why` (for the report text)"""
+
+    def __init__(self, x, note):
+        self.exc, self.chain, self.conds, self.origin = x.exc, x.chain, x.conds, x.origin
+        self.why = "%s - %s" % (x.why, note)
+
+
+def _validator_stricter_than_keys_gate(eng, m, p):
+    """the failing call on this pre-loop path is a validator of the repository applied to the
+    authorized-keys argument, and that validator has a rejecting path that refutes neither
+    "is a list" nor "every element is a 64-hex key" -> description, else None"""
+    from .kinds import _nottype
+    from .c15 import _elems, hex_refuted
+
+    x = p.value
+    for ev, _d in flatten_events(p.events):
+        if ev[0] == "call" and ev[5][0] == "raise" and isinstance(ev[2], str) and ev[2].startswith("repo:common.") and ev[3] and ev[3][0] == m.authorized:
+            q = ev[2][5:].split("[")[0].split("<")[0]
+            fi = eng.prog.funcs.get(q)
+            if fi is None:
+                continue
+            inline = frozenset(n for n, f in eng.prog.funcs.items() if f.mod.short == "common") - {q}
+            sm = eng.summary(fi, None, inline)
+            a = P(sm.params[0])
+            for rp in sm.paths:
+                if rp.kind != "raise":
+                    continue
+                facts = set(rp.facts) | set(rp.value.conds)
+                refuted = _nottype(facts, a, ["list"]) or any(hex_refuted(facts, t, 64) for f in facts for t in _elems(f, a)) or any(f[0] == "falsy" and is_call(f[1], "builtin:all") for f in facts)
+                if not refuted:
+                    return "%s also rejects for another reason (%s at %s)" % (q, rp.value.exc, rp.value.chain[-1].loc())
+    return None
+
+
 def cube_of(eng, m, bp):
     """atom valuation literals established on one loop-body path + unexplained decision literals"""
     cube, extra = {}, []
@@ -252,6 +287,14 @@ def run(ctx, deps=True):
         gates_hold = not envelope(st, m.signable) and not keylist(st, m.authorized) and not posint(st, m.threshold)
         is_payload = len(x.chain) >= 2 and any("canonserialize" in (s.text or "") for s in x.chain[:1]) or _from_serializer(x)
         ok = (not gates_hold) or is_payload
+        if ok and not is_payload:
+            # the rejection comes out of a validator applied to the list of authorized keys: that
+            # validator may reject only what the gate rejects (a non-list, a non-key element) - one
+            # that also refuses, say, a repeated key turns valid calls away
+            stricter = _validator_stricter_than_keys_gate(eng, m, p)
+            if stricter:
+                ok = False
+                x = Exc_note(x, stricter)
         if not ok:
             from . import refuted_at_defaults
 
